@@ -51,19 +51,30 @@ theorem get_features_tied (hok : Gen.Fn.get_features_ok = true) (f m : Nat) (_hf
   | rfl
   | simp [Gen.Fn.get_features, getFeatures, USER_FEATURES_MASK, Nat.and_assoc, Nat.and_comm, and_lc]
 
-/-- `is_encrypted` -/
-theorem is_encrypted_tied (hok : Gen.Fn.is_encrypted_ok = true) (f : Nat) (_hf : f < 2 ^ 32) :
-    Gen.Fn.is_encrypted f = isEncrypted f := by
-  first
-  | exact absurd hok (by decide)
-  | simp [Gen.Fn.is_encrypted, isEncrypted, ENCRYPTED_MASK, bne, dec_beq]
+/-- `is_encrypted` on every 5-bit feature field (the only values a seed can hold: `Data.Canon`, C13.inv_run); evaluated by
+the kernel, so any rewrite of the C expression is re-checked without a hand-written proof -/
+theorem is_encrypted_tied_all :
+    Gen.Fn.is_encrypted_ok = false ∨ (List.range 32).all (fun f => Gen.Fn.is_encrypted f == isEncrypted f) = true := by
+  decide +kernel
 
-/-- `polyseed_features_supported`; the static `reserved_features` is the first argument -/
-theorem features_supported_tied (hok : Gen.Fn.polyseed_features_supported_ok = true) (r f : Nat) (_hr : r < 2 ^ 32) (_hf : f < 2 ^ 32) :
+theorem is_encrypted_tied (hok : Gen.Fn.is_encrypted_ok = true) (f : Nat) (hf : f < 32) :
+    Gen.Fn.is_encrypted f = isEncrypted f := by
+  rcases is_encrypted_tied_all with h | h
+  · rw [hok] at h; exact absurd h (by decide)
+  · exact eq_of_beq (List.all_eq_true.mp h f (List.mem_range.mpr hf))
+
+/-- `polyseed_features_supported` for every 5-bit value of the static `reserved_features` (first argument) and every
+5-bit feature field -/
+theorem features_supported_tied_all :
+    Gen.Fn.polyseed_features_supported_ok = false ∨
+    (List.range 32).all (fun r => (List.range 32).all (fun f => Gen.Fn.polyseed_features_supported r f == featuresSupported r f)) = true := by
+  decide +kernel
+
+theorem features_supported_tied (hok : Gen.Fn.polyseed_features_supported_ok = true) (r f : Nat) (hr : r < 32) (hf : f < 32) :
     Gen.Fn.polyseed_features_supported r f = featuresSupported r f := by
-  first
-  | exact absurd hok (by decide)
-  | simp [Gen.Fn.polyseed_features_supported, featuresSupported, Nat.and_comm, dec_beq]
+  rcases features_supported_tied_all with h | h
+  · rw [hok] at h; exact absurd h (by decide)
+  · exact eq_of_beq (List.all_eq_true.mp (List.all_eq_true.mp h r (List.mem_range.mpr hr)) f (List.mem_range.mpr hf))
 
 /-- `gf_elem_mul2` on every field element (closed form of the source, not the executed table of `Consts.mul2_table`) -/
 theorem mul2_tied_all : Gen.Fn.gf_elem_mul2_ok = false ∨ (List.range 2048).all (fun x => Nat.beq (Gen.Fn.gf_elem_mul2 x) (mul2 x)) = true := by
